@@ -3,7 +3,8 @@ import json
 
 
 def _wrap(b):
-    return {"rootTh": b[0]["rootTh"], "steps": [{k: v for k, v in s.items() if k != "rootTh"} for s in b]}
+    return {"rootTh": b[0]["rootTh"], "group": b[0].get("group", "normal"),
+            "steps": [{k: v for k, v in s.items() if k not in ("rootTh", "group")} for s in b]}
 
 
 def run(ctx):
@@ -11,7 +12,8 @@ def run(ctx):
         d = json.load(open(ctx.replay))["detail"]
         inp = ctx.path("in", "behaviours.ndjson")
         with open(inp, "w") as fh:
-            fh.write(json.dumps(dict(rootTh=d["rootTh"], steps=d["behaviour"], delta=d["delta"], salt=d["salt"])) + "\n")
+            fh.write(json.dumps(dict(rootTh=d["rootTh"], group=d.get("group", "normal"), steps=d["behaviour"],
+                                     delta=d["delta"], salt=d["salt"])) + "\n")
         test = "TestReplayTransitions" if d.get("level") == "transition" else "TestReplay"
         ctx.absorb(ctx.go_replay("txlocator", test, inp))
         return ctx.finish(rule="re-execution of one recorded behaviour")
@@ -24,11 +26,19 @@ def run(ctx):
     if not fast:
         r = ctx.model_check("exec", "MC_TxLocator", "MC_TxLocator.cfg", constants=small, coverage=True,
                             timeout=ctx.pick(900, 1500), label="required, root+2 blocks, lists<=2")
-        ctx.check_coverage(r, ["Block", "Commit", "FlushDone"], allow_zero=("Has",))
+        ctx.check_coverage(r, ["Block", "Commit", "FlushDone"], allow_zero=("Has", "Restart"))
     if not ctx.quick() and not fast:
         r2 = ctx.model_check("exec", "MC_TxLocator", "MC_TxLocator.cfg", constants=big, coverage=True,
                              timeout=2400, label="required, root+3 blocks, lists<=1")
-        ctx.check_coverage(r2, ["Block", "Commit", "FlushDone"], allow_zero=("Has",))
+        ctx.check_coverage(r2, ["Block", "Commit", "FlushDone"], allow_zero=("Has", "Restart"))
+        for label, extra in (("forced adds", dict(ForceOn="TRUE")), ("patch group (synchronous flush)", dict(Group='"patch"'))):
+            r3 = ctx.model_check("exec", "MC_TxLocator", "MC_TxLocator.cfg", constants=dict(small, **extra), coverage=True,
+                                 timeout=1500, label="required, root+2 blocks, " + label)
+            ctx.check_coverage(r3, ["Block", "Commit"], allow_zero=("Has", "Restart", "FlushDone"))
+        r4 = ctx.model_check("exec", "MC_TxLocator", "MC_TxLocator.cfg",
+                             constants=dict(small, MaxNodes=4, MaxTs=3, MaxList=1, RestartOn="TRUE"), coverage=True,
+                             timeout=2400, label="required, restart, 4 trackers")
+        ctx.check_coverage(r4, ["Block", "Commit", "FlushDone", "Restart"], allow_zero=("Has",))
     ctx.exhaustive = not fast
     # 1b. the same model with the comparisons as written in manager.go: TLC must derive a duplicate
     #     (this documents that the invariants are not vacuous; it is not a verdict about the code)
@@ -47,7 +57,12 @@ def run(ctx):
     #      call is a block the specification rejects as a duplicate of an ancestor / finalized block
     depth = ctx.pick(3, 4)
     bs = ctx.behaviours("exec", "Gen_TxLocator", "Gen_TxLocatorRej.cfg",
-                        constants=dict(Ths="{1, 3}", MaxOps=depth, Depth=depth), timeout=1800)
+                        constants=dict(Ths="{1, 4}", MaxOps=depth, Depth=depth), timeout=1800)
+    # (thresholds {1,4}: P(ts 1, th 4) holds ts 4, B(ts 2, th 1), C(ts 3, th 1) -- the transaction is strictly inside the
+    #  grandparent's window and strictly beyond the intermediate tracker's bound: "ancestor-skipped" without any boundary equality)
+    pure = sum(1 for b in bs if b[-1]["cls"] == "ancestor-skipped")
+    if pure == 0:
+        raise_vacuous(ctx)
     #  (b) random walks through larger trees with two and three ids (all calls incl. Has, rejected blocks)
     gen = dict(Ids='{"a", "b"}', MaxTs=5, Ths="{1, 2, 3}", MaxNodes=5, MaxList=2)
     wl = ctx.pick(9, 12)
@@ -56,9 +71,14 @@ def run(ctx):
                            depth=wl + 1, seed=ctx.seed, timeout=1200)
     wl2 = ctx.pick(8, 10)
     walks2 = ctx.behaviours("exec", "Gen_TxLocator", "Gen_TxLocator.cfg",
-                            constants=dict(gen, Ids='{"a"}', Ths="{1, 3}", MaxList=1, MaxNodes=6, MaxOps=wl2, Depth=wl2),
+                            constants=dict(gen, Ids='{"a"}', Ths="{1, 4}", MaxList=1, MaxNodes=6, ForceOn="TRUE", RestartOn="TRUE",
+                                           MaxOps=wl2, Depth=wl2),
                             simulate="num=%d" % ctx.pick(300, 6000), depth=wl2 + 1, seed=ctx.seed + 1000, timeout=1200)
-    allb = [_wrap(b) for b in bs + walks + walks2]
+    #  (c) the same walks in the patch group (synchronous flush in commitTracker), with forced adds
+    walks3 = ctx.behaviours("exec", "Gen_TxLocator", "Gen_TxLocator.cfg",
+                            constants=dict(gen, Group='"patch"', ForceOn="TRUE", MaxOps=wl2, Depth=wl2),
+                            simulate="num=%d" % ctx.pick(150, 3000), depth=wl2 + 1, seed=ctx.seed + 2000, timeout=1200)
+    allb = [_wrap(b) for b in bs + walks + walks2 + walks3]
     inp = ctx.path("in", "behaviours.ndjson")
     with open(inp, "w") as fh:
         for b in allb:
@@ -73,7 +93,8 @@ def run(ctx):
     ctx.absorb(recs)
     # 3b. transition level: the behaviours whose blocks all use one threshold (it is read from the world state) are
     #     replayed as real transitions (ensureRecordTXIDs + validateTxs of really executed blocks, FinalizeTransition)
-    same = [b for b in allb if all(s["th"] == b["rootTh"] for s in b["steps"] if s["op"] == "block")]
+    same = [b for b in allb if b["group"] == "normal" and not any(s["op"] == "restart" or s.get("force") for s in b["steps"])
+            and all(s["th"] == b["rootTh"] for s in b["steps"] if s["op"] == "block")]
     if not ctx.quick():
         extra = ctx.behaviours("exec", "Gen_TxLocator", "Gen_TxLocatorRej.cfg",
                                constants=dict(Ths="{2}", MaxOps=4, Depth=4), timeout=1800)
@@ -95,10 +116,10 @@ def run(ctx):
              "distinct by its call sequence and timestamp assignment; non-trivial if it contains a rejected block or a "
              "positive Has; the behaviours with one threshold are replayed a second time as real transitions"
              % (depth, len(walks) + len(walks2), wl, wl2),
-        assumptions=["one manager instance without restart; normal transaction group only",
+        assumptions=["a restart is a new manager over the same DB after Term() (unfinalized blocks are dropped; the forced re-add of the last block at start-up is not modelled)",
                      "block timestamps strictly increase along a chain; thresholds may differ per block",
                      "a block is validated by New+Add back to back (as transition.ensureRecordTXIDsInLock does); "
-                     "non-forced Add only",
+                     "forced Add only for lists that would pass (as for blocks validated before)",
                      "timestamps/thresholds are multiples of a seeded unit (1 us .. 60 s)",
                      "DB backend is the in-memory MapDB; flush-worker timing is controlled by a gate in the "
                      "locator bucket (hook common/txlocator/verif_export.go gives a read-only snapshot)"])
